@@ -351,8 +351,62 @@ def r07_5(ctx):
                 which = "lead" if base == 0xD800 else "trail"
                 ctx.ob(f"pair-half:{which}", ok, site(b, line=s["line"]),
                        f"{which} unit ∈ {shown}" + ("" if ok else f" — not confined to [{base:#x}, {base + 0x3ff:#x}]: an ill-formed pair would decode to a fabricated character instead of an error"))
+        # the combining arithmetic must be exact: no operation on the way to the unchecked conversion
+        # may leave its type's range (a 16-bit shift of the lead offset silently drops plane bits)
+        lines = set()
+        for bb, t in sites:
+            # lines of the statements feeding this argument: everything in the blocks dominating the call
+            # that belongs to the expression (approximated by: same source line range as the call's argument)
+            pass
+        span = (b.raw["span"]["line"], b.raw["span"]["end_line"])
+        wl = [ln for ln in iv.wrap_lines]
+        feeding = _feeding_lines(b, sites)
+        bad = [ln for ln in wl if ln in feeding]
+        ctx.ob(f"pair-arithmetic-exact:{b.name}", not bad, site(b, line=bad[0] if bad else None),
+               "no arithmetic feeding the unchecked conversions can wrap" if not bad else f"arithmetic at line(s) {bad} can exceed its integer type: the combined code point is truncated (characters above the affected plane decode to wrong characters)")
     if n == 0:
         ctx.ob("pair-halves", False, "lib", "no surrogate-pair combination found (unit - 0xD800 / unit - 0xDC00)")
+
+
+def _feeding_lines(b, sites):
+    """Source lines of the assignments whose values flow into the arguments of the given calls."""
+    lines = set()
+    seen = set()
+    work = []
+    for bb, t in sites:
+        for a in t["args"]:
+            if is_place(a):
+                work.append(a["p"]["l"])
+    while work:
+        l = work.pop()
+        if l in seen:
+            continue
+        seen.add(l)
+        for dbb, idx, kind, payload in b.defs().get(l, []):
+            if kind == "assign":
+                lines.add(payload["line"])
+                rv = payload["rv"]
+                ops = []
+                if rv["k"] in ("use", "cast", "repeat"):
+                    ops.append(rv["op"])
+                elif rv["k"] == "binop":
+                    ops += [rv["a"], rv["b"]]
+                elif rv["k"] == "unop":
+                    ops.append(rv["a"])
+                elif rv["k"] == "aggregate":
+                    ops += rv["ops"]
+                for o in ops:
+                    if is_place(o):
+                        work.append(o["p"]["l"])
+                if "p" in rv:
+                    work.append(rv["p"]["l"])
+            elif kind == "call":
+                f = fn_of(payload) or {}
+                if f.get("trait") == "std::convert::From" or f.get("name") in ("from",):
+                    for a in payload["args"]:
+                        if is_place(a):
+                            work.append(a["p"]["l"])
+    return lines
 
 
 def _nth(d, k):
@@ -407,3 +461,55 @@ def r07_4(ctx):
             ctx.ob("bom:flag-never-cleared", not clears, site(b), "the start flag is never reset" if not clears else f"`{fld}` is reset in {clears}")
         if not found:
             ctx.ob("bom:only-before-start", False, site(b, bi), "U+FEFF is compared (and dropped) without a start-of-stream guard: ZERO WIDTH NO-BREAK SPACE inside the text would be deleted")
+
+
+@rule("R07.6", 2, "the encoding detector always sees the first 4 bytes (or the whole input if shorter): whole slice, prefix(N>=4), or a buffer filled by copying from take(N>=4)", ["C07", "C02"])
+def r07_6(ctx):
+    lib = ctx.lib
+    d = detect_fn(lib)
+    need = 4
+    n = 0
+    for b in lib.bodies:
+        for bb, t in b.calls():
+            f = fn_of(t) or {}
+            if (f.get("resolved") or f.get("def")) != d.id:
+                continue
+            n += 1
+            key = f"detect-input:{b.name}"
+            tr = trace(b, t["args"][0])
+            ok = False
+            det = f"detector input originates from {tr.origin[0] if tr.origin else '?'}"
+            if any(s[0] == "downcast" and s[1] == "Slice" for s in tr.steps):
+                ok, det = True, "whole input slice"
+            elif tr.origin and tr.origin[0] == "call":
+                src = tr.origin[2]
+                sf = fn_of(src) or {}
+                cb = lib.by_id.get(sf.get("resolved") or sf.get("def"))
+                if cb and cb.raw.get("ret_ty", "").startswith("std::result::Result<&[u8], std::io::Error>") and len(src["args"]) == 2:
+                    c = trace(b, src["args"][1])
+                    v = c.origin[1].get("v") if c.origin and c.origin[0] == "const" else None
+                    ok = isinstance(v, int) and v >= need and any(s[0] == "downcast" and s[1] in ("Continue", "Ok") for s in tr.steps)
+                    det = f"prefix({v}) of the handle (captures at least that many bytes unless the source ends)"
+                elif cb and src["args"]:
+                    # accessor of a local buffer: the buffer must have been filled by io::copy from take(N)
+                    buf = trace(b, src["args"][0])
+                    bl = buf.origin[2]["dest"]["l"] if buf.origin and buf.origin[0] == "call" else (buf.origin[1] if buf.origin and buf.origin[0] == "multi" else None)
+                    for cb2, ct in b.calls():
+                        cf = fn_of(ct) or {}
+                        if cf.get("def") == "std::io::copy" and b.dominates(cb2, bb):
+                            w = trace(b, ct["args"][1])
+                            wl = w.origin[2]["dest"]["l"] if w.origin and w.origin[0] == "call" else None
+                            r = trace(b, ct["args"][0])
+                            if wl == bl and r.origin and r.origin[0] == "call" and (fn_of(r.origin[2]) or {}).get("def") == "std::io::Read::take":
+                                lv = trace(b, r.origin[2]["args"][1])
+                                v = lv.origin[1].get("v") if lv.origin and lv.origin[0] == "const" else None
+                                import r_bin
+
+                                sws = r_bin.result_switches(b, ct["dest"]["l"])
+                                after_ok = any(oks and all(b.dominates(o, bb) for o in oks[:1]) for _, _, oks in sws)
+                                ok = isinstance(v, int) and v >= need and after_ok
+                                det = f"buffer filled by io::copy(reader.take({v}), ..) (loops until {v} bytes or EOF)"
+                else:
+                    det = f"detector input comes from {sf.get('def')}: a single read/fill_buf may return fewer than {need} bytes of a longer stream"
+            ctx.ob(key, ok, site(b, bb), det)
+    ctx.ob("detect-call-sites", n >= 2, "lib", f"{n} call site(s) of the encoding detector")
